@@ -389,6 +389,9 @@ func Generate(rng *rand.Rand) *uni.Universe {
 		}
 	}
 	addExtraIdioms(rng, u, pkgs, vers)
+	if rng.Intn(5) == 0 {
+		addPostReleaseDiamond(rng, u, pkgs)
+	}
 	return u
 }
 
@@ -501,6 +504,57 @@ func addExtraIdioms(rng *rand.Rand, u *uni.Universe, pkgs []string, vers map[str
 				if v.Name == p && rng.Intn(4) > 0 {
 					guard(v, in)
 				}
+			}
+		}
+	}
+}
+
+// addPostReleaseDiamond plants a package p with a final release V and its
+// post-release V.post1, required by two different packages: by one with a
+// specifier that mentions a pre-release (which switches the resolver's
+// matching for p to its pre-release mode) and admits both, by the other with
+// ">V", which excludes V.post1 (PEP 440: an exclusive comparison does not
+// admit a post-release of the given version). Some version requires both.
+func addPostReleaseDiamond(rng *rand.Rand, u *uni.Universe, pkgs []string) {
+	if len(pkgs) < 4 {
+		return
+	}
+	perm := rng.Perm(len(pkgs))
+	p, a, b, r := pkgs[perm[0]], pkgs[perm[1]], pkgs[perm[2]], pkgs[perm[3]]
+	var finals []string
+	for _, v := range u.Versions {
+		if v.Name == p && isFinalText(v.Version) {
+			finals = append(finals, v.Version)
+		}
+	}
+	if len(finals) == 0 {
+		return
+	}
+	V := finals[rng.Intn(len(finals))]
+	post := V + ".post1"
+	if u.Find(p, post) == nil {
+		u.Versions = append(u.Versions, uni.Version{Name: p, Version: post})
+	}
+	set := func(v *uni.Version, rq uni.Req) {
+		for i := range v.Reqs {
+			if v.Reqs[i].Name == rq.Name {
+				v.Reqs[i] = rq
+				return
+			}
+		}
+		v.Reqs = append(v.Reqs, rq)
+	}
+	for i := range u.Versions {
+		v := &u.Versions[i]
+		switch v.Name {
+		case a:
+			set(v, uni.Req{Name: p, Req: uni.Pick(rng, "<=99.0rc1", ">=0.0a1", "<=99rc1")})
+		case b:
+			set(v, uni.Req{Name: p, Req: ">" + V})
+		case r:
+			if rng.Intn(2) == 0 {
+				set(v, uni.Req{Name: a, Req: ""})
+				set(v, uni.Req{Name: b, Req: ""})
 			}
 		}
 	}
